@@ -2594,7 +2594,7 @@ class AnnotatedValue(Value):
 
     def substitute_typevars(self, typevars: TypeVarMap) -> Value:
         metadata = tuple(val.substitute_typevars(typevars) for val in self.metadata)
-        return AnnotatedValue(self.value.substitute_typevars(typevars), metadata)
+        return annotate_value(self.value.substitute_typevars(typevars), metadata)
 
     def can_assign(self, other: Value, ctx: CanAssignContext) -> CanAssign:
         can_assign = self.value.can_assign(other, ctx)
